@@ -126,12 +126,12 @@ class Hist:
         ctx = {'in': None, 'told': None, 'handed': None, 'backed': None}
         orig_adv = bp.advance_block
 
-        def advance_block(block):
+        def advance_block(block, *args, **kwargs):
             hist.sample_pending()
             gb = next(b for b in hist.gen.blocks if b.hex_hash == block.hex_hash)
             dh = hist.d.cached_height()
             before = bp.state.height
-            orig_adv(block)
+            orig_adv(block, *args, **kwargs)
             if bp.state.height == before:
                 # the block does not connect: advance_block has only set reorg_count
                 hist.pending = ['S', None, None, None, hist.fmt_touched(bp.touched)]
@@ -496,6 +496,17 @@ def run(tier, seed):
             res.violations.append({'suite': 'sync', 'clause': c, 'detail': dtl, 'tags': sorted(set(tags)), 'seed': seed,
                                    'history': idx, 'forward': True, 'reorgs': bool(idx % 2), 'tier': tier,
                                    'events': h.events[-60:]})
+    for variant in (0, 1):
+        fails = mixed_batch_scenario(variant)
+        res.note_case(f'mixed hash batch {variant}', True)
+        res.evaluations += 1
+        res.bump('mixed_hash_batch_scenarios')
+        for c, dtl in fails:
+            if c == 'harness':
+                res.harness_errors.append(dtl)
+            elif len(res.violations) < 12:
+                res.violations.append({'suite': 'sync', 'clause': c, 'detail': dtl, 'tags': ['after_switch', 'utxo', 'history', 'files'],
+                                       'scenario': ['mixed_batch', variant]})
     res.rule = ('case = generated daemon history (extensions, natural reorgs up to exactly the reorg limit, admin reorgs, '
                 'cache-pressure events requesting history-only or full flushes, clean restarts) run through the real '
                 'fetch_and_process_blocks task under a seeded scheduler; judged at every moment clients are told a height, '
@@ -526,9 +537,122 @@ def run(tier, seed):
 
 def replay(case):
     res = SuiteResult('sync')
+    if case.get('scenario'):
+        return [f'{c}: {d}' for c, d in mixed_batch_scenario(case['scenario'][1]) if c != 'harness']
     h = Hist(res, case['seed'], case['history'], case.get('tier', 'quick'), forward=case.get('forward', False),
              reorgs=case.get('reorgs', False))
     return [f'{c}: {d}' for c, d, _t in h.run()]
+
+
+def _observables(w, n_heights):
+    """What clients can ask of the index, read through the real DB (canonical, hex)."""
+    db = w.db
+    out = {'state': (db.state.height, db.state.tip.hex(), db.state.tx_count, db.state.chain_size, db.state.utxo_count)}
+    for hgt in range(n_heights):
+        try:
+            out[f'header {hgt}'] = w.run(db.raw_header(hgt)).hex()
+        except Exception as e:       # noqa
+            out[f'header {hgt}'] = type(e).__name__
+        try:
+            out[f'tx hashes {hgt}'] = [t.hex() for t in w.run(db.tx_hashes_at_blockheight(hgt))[0]] \
+                if hasattr(db, 'tx_hashes_at_blockheight') else [t.hex() for t in db.fs_tx_hashes_at_blockheight(hgt)]
+        except Exception as e:       # noqa
+            out[f'tx hashes {hgt}'] = type(e).__name__
+    for script in list(NORMAL_SCRIPTS) + list(UNSPENDABLE_SCRIPTS):
+        hx = hashx_of(script)
+        out[f'utxos {script.hex()[:16]}'] = sorted((u.tx_hash.hex(), u.tx_pos, u.height, u.value)
+                                                   for u in w.run(db.all_utxos(hx)))
+        out[f'history {script.hex()[:16]}'] = [(t.hex(), hgt) for t, hgt in w.run(db.limited_history(hx, limit=None))]
+    return out
+
+
+def mixed_batch_scenario(variant):
+    """A fork discovered MID-BATCH, inside the answer to one hash request.  bitcoind answers a JSON-RPC batch of
+    getblockhash calls one at a time; when its best chain flips while it does so the list mixes branches:
+    [a(H+1), b(H+2), b(H+3)].  Reorg limit 5, the server caught up at H on the common part; branch A has three
+    blocks, branch B four.  Once the server has caught up with B, every observable must equal that of a server
+    that only ever saw B (the property's own words) - a second real server is run on B alone.
+    Returns a list of (clause, detail)."""
+    import random
+    rng = random.Random(770 + variant)
+    gen = Gen(rng, 1000)
+    d = SimDaemon(gen, rng, latency=(0,))
+    d.extend(5 + variant, max_txs=2)
+    w = World(d, 1000, 5, Scheduler(rng, job_bias=0.5))
+    fails = []
+    try:
+        w.build()
+        w.spawn('bp', w.bp.fetch_and_process_blocks(w.caught_up_event, w.shutdown_event))
+        w.run(d.height())
+        w.run_until(lambda: w.bp.caught_up and w.bp.state.height == d.tip.height)
+        w.advance_time(6)
+        base = d.tip
+        a = bb = base
+        for _ in range(3):
+            a = gen.new_block(a, max_txs=0)
+        for _ in range(4):
+            bb = gen.new_block(bb, max_txs=0 if variant == 0 else 2)
+        d.switch(a)
+        orig = d.block_hex_hashes
+        armed = [True]
+
+        async def mixed(first, count):
+            if armed[0] and count >= 3 and first == base.height + 1:
+                armed[0] = False
+                await d._lat()
+                out = [d.tip.chain()[first].hex_hash]           # answered while A is the best chain
+                d.switch(bb)                                    # ... which flips before the next item
+                chain = d.tip.chain()
+                return out + [chain[hgt].hex_hash for hgt in range(first + 1, first + count)]
+            return await orig(first, count)
+        d.block_hex_hashes = mixed
+        for _ in range(40):
+            w.settle(2)
+            w.advance_time(6)
+            if w.errors or (not armed[0] and w.bp.caught_up and w.bp.state.height == d.tip.height
+                            and w.db.state.height == d.tip.height):
+                break
+        if armed[0]:
+            return [('harness', 'the mixed hash batch was never requested')]
+        if w.errors:
+            return [('processing task died', f'after a hash batch mixing two branches the task ended with {w.errors[0][1]!r}')]
+        if w.db.state.height != d.tip.height:
+            return [('not caught up', f'after a hash batch mixing two branches the server stays at {w.db.state.height}, '
+                                      f'daemon at {d.tip.height}')]
+        got = _observables(w, bb.height + 1)
+    finally:
+        try:
+            w.stop()
+        except Exception:      # noqa
+            pass
+        w.destroy()
+    # the server that only ever saw B
+    rng2 = random.Random(771)
+    d2 = SimDaemon(gen, rng2, latency=(0,))
+    d2.tip = None
+    d2.switch(bb, readd=False)
+    w2 = World(d2, 1000, 5, Scheduler(rng2, job_bias=0.5))
+    try:
+        w2.build()
+        w2.spawn('bp', w2.bp.fetch_and_process_blocks(w2.caught_up_event, w2.shutdown_event))
+        w2.run(d2.height())
+        w2.run_until(lambda: w2.bp.caught_up and w2.bp.state.height == bb.height and w2.db.state.height == bb.height)
+        want = _observables(w2, bb.height + 1)
+    finally:
+        try:
+            w2.stop()
+        except Exception:      # noqa
+            pass
+        w2.destroy()
+    for k in want:
+        if got.get(k) != want[k]:
+            fails.append(('trace of an orphaned block',
+                          f'fork discovered inside one hash batch [a{base.height + 1}, b{base.height + 2}, b{base.height + 3}], '
+                          f'server caught up at {bb.height}: {k} is {str(got.get(k))[:300]} but a server that only ever saw '
+                          f'the final chain reports {str(want[k])[:300]}'))
+            if len(fails) >= 3:
+                break
+    return fails
 
 
 def f21_scenario():
